@@ -206,6 +206,8 @@ pub async fn emit_hsack(run: &mut Run, ep: &mut Endpoint, c: &HsackCase, verbose
     while ep.out_rx.try_recv().is_ok() {}
     let mut outs = vec![];
     let mut freed_wrong: Vec<u32> = vec![];
+    let mut best_cum = c.pc;
+    let mut stale_window: Vec<u32> = vec![];
     for (cum, arwnd, gaps) in &c.sacks {
         let mut v = Vec::with_capacity(12 + 4 * gaps.len());
         v.extend_from_slice(&cum.to_be_bytes()); v.extend_from_slice(&arwnd.to_be_bytes());
@@ -217,6 +219,10 @@ pub async fn emit_hsack(run: &mut Run, ep: &mut Endpoint, c: &HsackCase, verbose
         while let Ok(p) = ep.out_rx.try_recv() { rexb += p.len().saturating_sub(12); }
         let after = ep.sctp.verif_sent_queue();
         let (rw, pc) = ep.sctp.verif_sack_view();
+        // oracle (independent of the model): a SACK whose cumulative TSN is serially not behind the newest one seen
+        // carries the current window; the sender must be using it afterwards
+        let not_behind = (cum.wrapping_sub(best_cum) as i32) >= 0;
+        if not_behind { best_cum = *cum; if rw != *arwnd && !stale_window.contains(cum) { stale_window.push(*cum); } }
         let fl = ep.sctp.verif_snapshot().flight_size;
         for r in &c.q {
             let freed = match after.iter().find(|x| x.tsn == r.tsn) { None => true, Some(x) => x.acked && !r.acked };
@@ -229,6 +235,10 @@ pub async fn emit_hsack(run: &mut Run, ep: &mut Endpoint, c: &HsackCase, verbose
     for t in &freed_wrong {
         run.fail("sack:record-freed-but-receiver-does-not-hold-it", &format!("hsack {input}"), &format!("TSN {t} left the sent queue or lost its payload; the receiver holds {}", show_u32s(&c.held)));
         if verbose { println!("ORACLE-FAIL sack:record-freed-but-receiver-does-not-hold-it TSN {t}"); }
+    }
+    for t in &stale_window {
+        run.fail("window:advertised-window-of-the-newest-sack-ignored", &format!("hsack {input}"), &format!("after the SACK with cumulative TSN {t} (serially the newest so far) the sender's peer_rwnd is not that SACK's a_rwnd"));
+        if verbose { println!("ORACLE-FAIL window:advertised-window-of-the-newest-sack-ignored cum {t}"); }
     }
     run.case("hsack", &input, &out, true);
 }
@@ -405,8 +415,9 @@ pub fn case_text(c: &Case) -> String {
         c.max_retransmits.map(|v| v.to_string()).unwrap_or("-".into()), c.max_lifetime.map(|v| v.to_string()).unwrap_or("-".into()))).collect::<Vec<_>>().join(";") };
     let mt = |ph: u8| c.msgs.iter().filter(|m| m.phase == ph).map(|m| format!("{}{}:{}{}", if m.side == 0 { "A" } else { "B" }, m.chan, m.data.len(), if m.task != 0 { format!("@{}", m.task) } else { String::new() })).collect::<Vec<_>>().join(";");
     let ms = if c.msgs.is_empty() { "-".to_string() } else if c.msgs.iter().any(|m| m.phase == 1) { format!("{}|{}", mt(0), mt(1)) } else { mt(0) };
-    let ep = |e: &EpCfg| format!("{}:{}:{}:{}:{}:{}:{}", e.rwnd, e.rto_initial_ms, e.max_burst, e.max_cwnd,
-        e.seed_tsn.map(|v| v.to_string()).unwrap_or("-".into()), e.seed_tag.map(|v| v.to_string()).unwrap_or("-".into()), e.max_buffered);
+    let ep = |e: &EpCfg| format!("{}:{}:{}:{}:{}:{}:{}{}", e.rwnd, e.rto_initial_ms, e.max_burst, e.max_cwnd,
+        e.seed_tsn.map(|v| v.to_string()).unwrap_or("-".into()), e.seed_tag.map(|v| v.to_string()).unwrap_or("-".into()), e.max_buffered,
+        if e.heartbeat_ms != 15_000 { format!(":{}", e.heartbeat_ms) } else { String::new() });
     let cl = if c.closes.is_empty() { "-".to_string() } else { c.closes.iter().map(|(s, id)| format!("{}{}{id}", if *s >= 2 { "^" } else { "" }, ["A", "B"][*s % 2])).collect::<Vec<_>>().join(";") };
     format!("link epA={} epB={} chA={} chB={} msgs={} faults={} closes={cl} end={}{}", ep(&c.cfg[0]), ep(&c.cfg[1]), ch(&c.chans[0]), ch(&c.chans[1]), ms, faults_text(&c.faults), c.end.text(),
         if c.settle > Duration::from_millis(1000) { format!(" settle={}", c.settle.as_millis()) } else { String::new() })
@@ -430,6 +441,7 @@ pub fn parse_case(s: &str) -> Option<Case> {
         e.rto_max_ms = e.rto_initial_ms * 4;
         e.max_burst = f.get(2)?.parse().ok()?; e.max_cwnd = f.get(3)?.parse().ok()?;
         e.seed_tsn = f.get(4)?.parse().ok(); e.seed_tag = f.get(5)?.parse().ok(); e.max_buffered = f.get(6)?.parse().ok()?;
+        if let Some(h) = f.get(7) { e.heartbeat_ms = h.parse().ok()?; }
         Some(e)
     };
     let ch = |t: &str| -> Vec<ChanSpec> {
@@ -569,7 +581,7 @@ pub fn oracle(c: &Case, o: &Outcome) -> Vec<(String, String)> {
                 fails.push((format!("prefix:{k}"), format!("{}→{} ch{}: {d}", ["A", "B"][side], ["A", "B"][peer], ch.id)));
             } else if delivered.len() < submitted.len() {
                 // excused only by a close the case itself asked for (teardown / close_data_channel of this channel)
-                let excused = (0..2).any(|s| c.end.closes_side(s)) || c.closes.iter().any(|(_, id)| *id == ch.id);
+                let excused = c.closes.iter().any(|(_, id)| *id == ch.id);   // (a teardown only starts after everything was delivered)
                 if !excused {
                     fails.push(("stall".into(), format!("{}→{} ch{}: {} of {} delivered after {} ms (script exhausted: {})",
                         ["A", "B"][side], ["A", "B"][peer], ch.id, delivered.len(), submitted.len(), o.elapsed_ms, o.faults_used.iter().all(|u| *u))));
@@ -669,6 +681,15 @@ fn link_cases(args: &Args, rng: &mut Rng) -> Vec<LinkCase> {
         c.msgs.push(Msg { side: 0, chan: 1, data: payload(0, 1, 4, 70), phase: 1, task: 0 });
         c.closes = vec![(*closer, 2)];
         v.push(LinkCase { name: format!("close-sibling-midway{i}"), case: c });
+    }
+    // flow control: a send buffer (sctp_max_buffered_amount) far smaller than the workload — send_data parks until SACKs
+    // free credit and has to be woken by them; with and without loss
+    for (i, f) in ["-", "A.DATA.3.drop+B.SACK.2.drop", "A.TSN.5.dropn2"].iter().enumerate() {
+        let mut c = mk_case(&[5000, 5000, 5000, 5000, 5000, 5000, 300], faults_parse(f), if i == 1 { Some(0xFFFF_FFF6) } else { None });
+        for e in c.cfg.iter_mut() { e.max_buffered = 6000; }
+        c.msgs.push(Msg { side: 1, chan: 1, data: payload(1, 1, 0, 9000), phase: 0, task: 0 });
+        c.msgs.push(Msg { side: 1, chan: 1, data: payload(1, 1, 1, 9000), phase: 0, task: 0 });
+        v.push(LinkCase { name: format!("flow-control-small-buffer{i}"), case: c });
     }
     // more chunks queued out of order than the receive queue's cap (a foreign or fast peer may do it): none is dropped
     {
